@@ -36,7 +36,10 @@ def case(g, tier, ci):
     offs = {ch: r.choice([0, 0.25, -0.25, 1, -2]) for ch in chans}
     ops = [{"op": "sq.new", "id": "s"}, {"op": "sq.setSR", "id": "s", "v": enc(SR)}]
     boundary = r.random() < 0.4
-    for p in range(1, P + 1):
+    adding = list(range(1, P + 1))
+    if r.random() < 0.3:
+        r.shuffle(adding)       # positions may be filled in any order
+    for p in adding:
         eid = g.fresh("e")
         N = r.randint(4, 12)
         order = r.sample(chans, len(chans))
